@@ -336,6 +336,7 @@ pub fn check_c12(h: &AdvHistory) -> Result<CaseInfo, Failure> {
     let mut rejected: BTreeSet<&'static str> = BTreeSet::new();
     let mut noop_closes = 0u64;
     let mut max_id: Option<usize> = None;
+    let mut issued: BTreeSet<usize> = BTreeSet::new();
 
     let dummy = AdvReq::Close { strat: h.final_strat };
 
@@ -367,18 +368,16 @@ pub fn check_c12(h: &AdvHistory) -> Result<CaseInfo, Failure> {
                 match (res, expect_ok) {
                     (Ok(id), true) => {
                         let k = datum_index(id);
-                        if max_id.map_or(false, |m| k <= m) {
-                            return Err(fail("id-reused", step, req, format!("returned datum id {} is not greater than every earlier id (max {:?})", k, max_id)));
+                        if !issued.insert(k) {
+                            return Err(fail("id-reused", step, req, format!("datum id {} was already returned by an earlier request", k)));
                         }
-                        max_id = Some(k);
-                        if k != model.names.len() {
-                            // ids are only required to be fresh; keep the model aligned with the
-                            // builder's numbering if it skips values
-                            while model.names.len() < k {
-                                model.names.push(String::from("\u{0}<skipped id>"));
-                            }
+                        max_id = Some(max_id.map_or(k, |m: usize| m.max(k)));
+                        // ids are only required to be fresh; keep the model aligned with the builder's
+                        // numbering if it skips or reorders values
+                        while model.names.len() <= k {
+                            model.names.push(String::from("\u{0}<unissued id>"));
                         }
-                        model.names.push(name);
+                        model.names[k] = name;
                         model.pending_add.push(k);
                     }
                     (Err(_), false) => {
